@@ -96,3 +96,23 @@ Proof.
   - rewrite <- K1. exact Hka.
   - rewrite <- K2, <- Hkk. exact Hka.
 Qed.
+
+(* C03: a merged object or interface implements exactly the interfaces its definitions implement *)
+Theorem merged_ifaces_exact all out k o :
+  merge_types all = Ok out -> is_internal_name k = false -> find_def k out = Some o -> implementing (df_kind o) ->
+  forall i, In i (df_ifaces o) <-> exists x, In x all /\ df_name x = k /\ In i (df_ifaces x).
+Proof.
+  intros H Hk Fo Hi i. pose proof (merge_types_find all out k H) as F. rewrite Fo in F. destruct F as [d [r [P G]]].
+  destruct (merge_group_name_kind _ _ _ G) as [_ K].
+  assert (Hmem : forall x, In x (d :: r) <-> In x all /\ df_name x = k).
+  { intros x. split.
+    - intros Hx. assert (Hf : In x (filter (named k) all)) by (eapply Permutation_in; [apply Permutation_sym; exact P|exact Hx]).
+      apply filter_In in Hf. destruct Hf as [Hin Hn]. apply String.eqb_eq in Hn. tauto.
+    - intros [Hin Hn]. eapply Permutation_in; [exact P|]. apply filter_In. split; [exact Hin|]. apply String.eqb_eq. exact Hn. }
+  assert (Hn : Forall (fun x => is_internal_name (df_name x) = false) r).
+  { apply Forall_forall. intros x Hx. destruct (proj1 (Hmem x) (or_intror Hx)) as [_ Hnx]. rewrite Hnx. exact Hk. }
+  rewrite (group_ifaces d r o G) by (try (rewrite <- K; exact Hi); exact Hn).
+  split.
+  - intros [x [Hx Hxi]]. exists x. destruct (proj1 (Hmem x) Hx) as [A B]. tauto.
+  - intros [x [A [B C]]]. exists x. split; [apply Hmem; tauto|exact C].
+Qed.
